@@ -139,6 +139,17 @@ def run_helper(case):
             except BaseException as e:  # noqa
                 ev["outcome"] = type(e).__name__
             return ev
+        if case["typ"] == "templates":
+            ev = {"typ": "templates", "num": case["num"], "keys": [], "exclude": [[ord(v), e] for v, e in case["exclude"]], "outcome": "ok"}
+            try:
+                ex = [P.MathyTermTemplate(variable=v, exponent=(e or None)) for v, e in case["exclude"]]
+                ts = P.get_rand_term_templates(case["num"], exclude_like=ex, common_variables=case["common"], exponent_probability=case["ep"])
+                ev["keys"] = [[ord(t.variable[0]) if t.variable else 0, int(t.exponent) if t.exponent is not None and float(t.exponent) == int(t.exponent) else (0 if t.exponent is None else -99)] for t in ts]
+            except EnvironmentError:
+                ev["outcome"] = "gave_up"
+            except BaseException as e:  # noqa
+                ev["outcome"] = type(e).__name__
+            return ev
         if case["typ"] == "split":
             ev = {"typ": "split", "value": case["value"], "lower": -1, "higher": -1, "outcome": "ok"}
             try:
@@ -220,6 +231,14 @@ def domain(ctx):
         for ex in ("", "x"):
             if num + len(ex) <= 3:
                 helpers.append({"typ": "vars", "num": num, "exclude": ex, "common": True, "seed": 1})
+    for num in (1, 2, 3):
+        for common in (True, False):
+            for ex in ([], [("x", 2)], [("x", 2), ("y", 2), ("z", 2)], [("x", 0), ("y", 0)]):
+                for ep in (0.5, 1.0):
+                    for pf in prefixes(4 if q else 6):
+                        if not common and len(pf) > 3:
+                            continue
+                        helpers.append({"typ": "templates", "num": num, "common": common, "exclude": ex, "ep": ep, "prefix": pf, "seed": len(pf)})
     for v in range(0, 61):
         for pf in prefixes(1):
             helpers.append({"typ": "split", "value": v, "prefix": pf, "seed": v})
@@ -230,7 +249,7 @@ def domain(ctx):
             helpers.append({"typ": "number", "pretty": pretty, "prefix": [], "seed": seed})
     rule = ("%d generator parameter settings (term counts 2..26, blockers 1..5, probabilities 0/.33/.5/1, options easy/powers/simple_variables/optional_var/op) x both number modes x "
             "seeds 0..%d; every forced draw prefix of length <= %d (lowest / middle / highest admissible value per draw) on 9 representative settings x both modes; "
-            "get_rand_vars for 0..24 and >25 variables (a request that exceeds the allowed pool must be refused, any other fulfilled) with 4 exclusion lists; split_in_two_random(0..60) with forced draws; rand_number in both modes"
+            "get_rand_vars for 0..24 and >25 variables (a request that exceeds the allowed pool must be refused, any other fulfilled) with 4 exclusion lists; split_in_two_random(0..60) with forced draws; get_rand_term_templates (1..3 templates, exclusion lists, every forced draw prefix); rand_number in both modes"
             % (len(grid), len(seeds) - 1, k))
     return cases, helpers, rule
 
